@@ -276,7 +276,7 @@ fn floats32(ctx: &Ctx, r: &mut Report) {
 	let total: u64 = 1 << 32;
 	let chunks = 4096u64;
 	let per = total / chunks;
-	let stride: u64 = if ctx.thorough { 1 } else { 256 };
+	let stride: u64 = if ctx.thorough { 1 } else { 16 };
 	let mut rng = Rng::new(ctx.seed ^ 0xF32);
 	for ch in 0..chunks {
 		if !ctx.mine(ch) {
@@ -311,7 +311,7 @@ fn floats32(ctx: &Ctx, r: &mut Report) {
 		}
 		r.eval(n);
 	}
-	r.cell(if ctx.thorough { "f32:all-2^32-bit-patterns" } else { "f32:2^24-stratified" });
+	r.cell(if ctx.thorough { "f32:all-2^32-bit-patterns" } else { "f32:2^28-stratified" });
 	if ctx.thorough {
 		r.note("f32 conversion checked for all 2^32 bit patterns (exhaustive)");
 	}
